@@ -11,7 +11,9 @@ import (
 	"math/rand/v2"
 	"os"
 	"path/filepath"
+	"slices"
 	"sort"
+	"strings"
 	"time"
 
 	"github.com/fluhus/biostuff/formats/bed"
@@ -268,6 +270,7 @@ func init() {
 			{Name: "random", TShards: 4, Run: c19Random},
 			{Name: "deep", Run: c19Deep},
 			{Name: "recross", QShards: 3, TShards: 8, Run: c19Recross},
+			{Name: "edits", TShards: 4, Run: c19Edits},
 			{Name: "readers", Race: true, QShards: 2, TShards: 4, Run: c19Readers},
 			{Name: "wide", TShards: 4, Run: c19Wide},
 			{Name: "parallel", Race: true, Run: treeParallel},
@@ -919,6 +922,94 @@ func c19Deep(c *Ctx) {
 			k.Count("deep_trees", 1)
 			k.Count("max_depth", int64(depth))
 			k.Nontrivial([]byte(fmt.Sprint(depth, every, cnt)))
+		})
+	}
+}
+
+// c19Edits: the SAME tree (the same root pointer) traversed again and again
+// with edits in between — a clade added under a tip, a subtree removed, two
+// children swapped, a child list replaced by a copy, the root given another
+// first child — in histories that repeat ONE order several times in a row
+// (PreOrder, edit, PreOrder, edit, PreOrder …) as well as alternating ones. Big
+// trees (1100 … 40 000 nodes) and small ones. A traversal that remembers
+// anything about a tree by its identity — the last order it produced, a node
+// count, a flattened child index — is stale after the first edit.
+func c19Edits(c *Ctx) {
+	n := c.N(60, 1200)
+	for i := 0; i < n; i++ {
+		c.Case(int64(i), func(k *K) {
+			r := k.Rand()
+			size := pick(r, []int{30, 1100, 1100, 5000, 40000})
+			root, _ := randomTree(r, size, r.IntN(4))
+			k.Input("nodes", size)
+			orders := []string{"pre", "pre", "pre", "post", "post", "post", "pre", "post", "pre", "pre"}
+			if i%3 == 1 {
+				orders = []string{"post", "post", "post", "post", "pre", "pre", "pre", "pre"}
+			}
+			var hist []string
+			k.Input("history", func() string { return strings.Join(hist, "; ") })
+			for step, ord := range orders {
+				hist = append(hist, ord)
+				var got, want []*newick.Node
+				if ord == "pre" {
+					want = refPreOrder(root)
+					for nd := range root.PreOrder() {
+						got = append(got, nd)
+						if len(got) > len(want)+10 {
+							break
+						}
+					}
+				} else {
+					want = refPostOrder(root)
+					for nd := range root.PostOrder() {
+						got = append(got, nd)
+						if len(got) > len(want)+10 {
+							break
+						}
+					}
+				}
+				if !samePtrs(got, want) {
+					k.Failf("traversal-after-edit", "traversal %d of one tree (%s-order, after %d edits) yields %d nodes, the tree has %d now; the orders differ", step+1, ord, step, len(got), len(want))
+					return
+				}
+				k.Count("traversals_between_edits", 1)
+				// edit
+				live := refPreOrder(root)
+				nd := live[r.IntN(len(live))]
+				switch r.IntN(6) {
+				case 0: // a clade under a tip (or one more child)
+					nd.Children = append(nd.Children, &newick.Node{Children: []*newick.Node{{}, {}}})
+					hist = append(hist, "add a clade")
+				case 1: // remove a subtree
+					if len(nd.Children) > 0 {
+						j := r.IntN(len(nd.Children))
+						nd.Children = append(nd.Children[:j:j], nd.Children[j+1:]...)
+						hist = append(hist, "remove a subtree")
+					}
+				case 2: // swap two children
+					if len(nd.Children) > 1 {
+						nd.Children[0], nd.Children[len(nd.Children)-1] = nd.Children[len(nd.Children)-1], nd.Children[0]
+						hist = append(hist, "swap children")
+					}
+				case 3: // the child list replaced by a copy in reverse order
+					cp := append([]*newick.Node{}, nd.Children...)
+					slices.Reverse(cp)
+					nd.Children = cp
+					hist = append(hist, "reverse a child list")
+				case 4: // a new first child of the root
+					root.Children = append([]*newick.Node{{Name: "new"}}, root.Children...)
+					hist = append(hist, "new first child of the root")
+				default: // move a subtree elsewhere
+					if len(nd.Children) > 0 && nd != root {
+						sub := nd.Children[len(nd.Children)-1]
+						nd.Children = nd.Children[:len(nd.Children)-1]
+						root.Children = append(root.Children, sub)
+						hist = append(hist, "move a subtree to the root")
+					}
+				}
+			}
+			k.Count("trees_traversed", 1)
+			k.Nontrivial([]byte(fmt.Sprint("edits", size, i)))
 		})
 	}
 }
